@@ -445,6 +445,21 @@ func (f *quorumFam) Gen(r *hx.Run) {
 	cfgs = append(cfgs, cfgT{4, "main"}, cfgT{7, "main"}, cfgT{8, "main"})
 	rounds := r.Pick(1, 12)
 	id := 0
+	if r.Thorough() {
+		// the modern rule N-(N-1)/3: main net with the header index pre-filled beyond height 20,000,000
+		for _, n := range []int{1, 3, 4, 7, 10} {
+			id++
+			r.Case(fmt.Sprintf("quorum-modern-%d-n%d", id, n))
+			g := &chainGen{r: r, w: &f.world}
+			if !okRes(g.genesis(n, "main", false, false, nil)) {
+				continue
+			}
+			if !okRes(r.Do("prefill 20000002")) {
+				continue
+			}
+			f.headersAt(r, g, n, 20000001)
+		}
+	}
 	for round := 0; round < rounds; round++ {
 		for _, c := range cfgs {
 			id++
@@ -467,9 +482,12 @@ func shuffled(r *hx.Run, v []int) []int {
 	return out
 }
 
-func (f *quorumFam) headers(r *hx.Run, g *chainGen, n int) {
+func (f *quorumFam) headers(r *hx.Run, g *chainGen, n int) { f.headersAt(r, g, n, 0) }
+
+// headersAt: hh is the header height the ledger reports (decides between the legacy and the modern rule).
+func (f *quorumFam) headersAt(r *hx.Run, g *chainGen, n int, hh uint32) {
 	setTok := intsToken(g.set)
-	m := refThreshold(n, g.net, 0)
+	m := refThreshold(n, g.net, hh)
 	vid := 0
 	try := func(kind string, mut func(b *blockSpec), set string) {
 		vid++
@@ -480,7 +498,7 @@ func (f *quorumFam) headers(r *hx.Run, g *chainGen, n int) {
 		res := r.Do(fmt.Sprintf("vh %s %s", b.name, set))
 		verdict := strings.SplitN(res, " ", 2)[0]
 		r.Hist("vh." + kind + "." + verdict)
-		r.Nontrivial(fmt.Sprintf("n%d/bk%d/valid%d/%s/%s", n, len(b.bks), validSigners(b, parseSet(set)), kind, verdict))
+		r.Nontrivial(fmt.Sprintf("n%d/m%d/bk%d/valid%d/%s/%s", n, m, len(b.bks), validSigners(b, parseSet(set)), kind, verdict))
 	}
 	signSub := func(b *blockSpec, s []int) {
 		b.bks = shuffled(r, s)
